@@ -249,6 +249,8 @@ pub proof fn lemma_fold_match(h1: Seq<bool>, v1: Seq<F>, lo1: int, hi1: int, h0:
 }
 
 // ---- sorting the entries of every column by row index ----
+// the same as in_col, under another name so that clauses of the form in_col(k) ==> in_seg(p[k]) do not feed their own trigger
+pub open spec fn in_seg(A: CscMatrix<F>, k: int, c: int) -> bool { A.colptr@[c] <= k < A.colptr@[c + 1] }
 // entries of one column with equal row index keep their relative order (opaque: three bound variables; read through lemma_col_stable)
 #[verifier::opaque]
 pub open spec fn col_stable(A: CscMatrix<F>, rv: Seq<usize>, p: Seq<int>, ncol: int) -> bool {
@@ -264,7 +266,7 @@ pub open spec fn cols_sorted_by(A: CscMatrix<F>, B: CscMatrix<F>, p: Seq<int>, q
     let nn = A.rowval@.len() as int;
     &&& B.m == A.m && B.n == A.n && B.colptr@ == A.colptr@ && B.rowval@.len() == nn && B.nzval@.len() == nn
     &&& perm_pair(p, q, nn)
-    &&& forall|c: int, k: int| #[trigger] in_col(A, k, c) ==> in_col(A, p[k], c) && in_col(A, q[k], c)
+    &&& forall|c: int, k: int| #[trigger] in_col(A, k, c) ==> in_seg(A, p[k], c) && in_seg(A, q[k], c)
     &&& forall|k: int| 0 <= k < nn ==> #[trigger] B.rowval@[k] == A.rowval@[p[k]]
     &&& forall|k: int| 0 <= k < nn ==> #[trigger] B.nzval@[k] == A.nzval@[p[k]]
     &&& rows_nondecr(B) && col_stable(A, B.rowval@, p, A.n as int)
@@ -702,7 +704,7 @@ it0
         let ghost nn = self.rowval@.len() as int;
         let ghost mut gp: Seq<int> = Seq::new(nn as nat, |k: int| k);
         let ghost mut gq: Seq<int> = Seq::new(nn as nat, |k: int| k);
-        proof { assert(col_stable(A0, self.rowval@, gp, 0)) by { reveal(col_stable); } }
+        proof { assert(col_stable(A0, self.rowval@, gp, 0)) by { reveal(col_stable); } lemma_perm_intro(gp, gq, nn); }
 //@iter 1
 it0
 //@loop 1
@@ -713,7 +715,7 @@ it0
             self.colptr@ == cp0, self.rowval@.len() == nn, self.nzval@.len() == nn,
             perm_pair(gp, gq, nn),
             forall|k: int| cp0[it0.index@ as int] <= k < nn ==> #[trigger] gp[k] == k && gq[k] == k,
-            forall|c: int, k: int| #[trigger] in_col(A0, k, c) && c < it0.index@ ==> in_col(A0, gp[k], c) && in_col(A0, gq[k], c),
+            forall|c: int, k: int| #[trigger] in_col(A0, k, c) && c < it0.index@ ==> in_seg(A0, gp[k], c) && in_seg(A0, gq[k], c),
             forall|k: int| 0 <= k < nn ==> #[trigger] self.rowval@[k] == rv0[gp[k]],
             forall|k: int| 0 <= k < nn ==> #[trigger] self.nzval@[k] == nz0[gp[k]],
             forall|c: int, k: int| #[trigger] in_col(A0, k, c) && c < it0.index@ && k + 1 < cp0[c + 1] ==> self.rowval@[k] <= self.rowval@[k + 1],
@@ -757,18 +759,25 @@ it3
                 // the global permutation: the local one, shifted, on this column; unchanged elsewhere
                 gp = Seq::new(nn as nat, |k: int| if lo <= k < hi { lo + lp[k - lo] } else { gp1[k] });
                 gq = Seq::new(nn as nat, |k: int| if lo <= k < hi { lo + lq[k - lo] } else { gq1[k] });
+                lemma_perm_len(lp, lq, hi - lo); lemma_perm_len(gp1, gq1, nn);
                 assert forall|k: int| 0 <= k < nn && !(lo <= k < hi) implies !(lo <= #[trigger] gp1[k] < hi) && !(lo <= gq1[k] < hi) by {
-                    if k < lo { lemma_in_some_col(A0, k, gc); } 
+                    if k < lo {
+                        lemma_in_some_col(A0, k, gc);
+                        let x = choose|x: int| 0 <= x < gc && #[trigger] in_col(A0, k, x);
+                        lemma_mono2(cp0, x + 1, gc);
+                    }
                 }
                 assert forall|k: int| 0 <= k < nn implies 0 <= #[trigger] gp[k] < nn && gq[gp[k]] == k by {
-                    if lo <= k < hi { assert(0 <= lp[k - lo] < hi - lo && lq[lp[k - lo]] == k - lo); } else { assert(0 <= gp1[k] < nn && gq1[gp1[k]] == k); }
+                    if lo <= k < hi { lemma_perm(lp, lq, hi - lo, k - lo); } else { lemma_perm(gp1, gq1, nn, k); }
                 }
                 assert forall|j: int| 0 <= j < nn implies 0 <= #[trigger] gq[j] < nn && gp[gq[j]] == j by {
-                    if lo <= j < hi { assert(0 <= lq[j - lo] < hi - lo && lp[lq[j - lo]] == j - lo); } else { assert(0 <= gq1[j] < nn && gp1[gq1[j]] == j); }
+                    if lo <= j < hi { lemma_perm(lp, lq, hi - lo, j - lo); } else { lemma_perm(gp1, gq1, nn, j); }
                 }
+                lemma_perm_intro(gp, gq, nn);
                 assert forall|k: int| 0 <= k < nn implies #[trigger] self.rowval@[k] == rv0[gp[k]] && self.nzval@[k] == nz0[gp[k]] by {
                     if lo <= k < hi {
                         let t = k - lo;
+                        lemma_perm(lp, lq, hi - lo, t);
                         assert(td1[t] == td0[lp[t]]);
                         assert(0 <= lp[t] < hi - lo);
                         assert(td0[lp[t]] == (rsl[lp[t]], nsl[lp[t]]));
@@ -776,8 +785,8 @@ it3
                         assert(nzS[lo + lp[t]] == nz0[gp1[lo + lp[t]]]);
                     } else { assert(rvS[k] == rv0[gp1[k]]); assert(nzS[k] == nz0[gp1[k]]); }
                 }
-                assert forall|c: int, k: int| #[trigger] in_col(A0, k, c) && c < gc + 1 implies in_col(A0, gp[k], c) && in_col(A0, gq[k], c) by {
-                    if c < gc { lemma_mono2(cp0, c + 1, gc); } else { assert(0 <= lp[k - lo] < hi - lo); assert(0 <= lq[k - lo] < hi - lo); }
+                assert forall|c: int, k: int| #[trigger] in_col(A0, k, c) && c < gc + 1 implies in_seg(A0, gp[k], c) && in_seg(A0, gq[k], c) by {
+                    if c < gc { lemma_mono2(cp0, c + 1, gc); } else { lemma_perm(lp, lq, hi - lo, k - lo); }
                 }
                 assert forall|c: int, k: int| #[trigger] in_col(A0, k, c) && c < gc + 1 && k + 1 < cp0[c + 1] implies self.rowval@[k] <= self.rowval@[k + 1] by {
                     if c < gc { lemma_mono2(cp0, c + 1, gc); assert(rvS[k] <= rvS[k + 1]); }
@@ -795,8 +804,8 @@ it3
         proof {
             assert(cols_sorted_by(A0, *self, gp, gq));
             assert forall|i: int, c: int| 0 <= c < A0.n implies #[trigger] dense(*self, i, c) == dense(A0, i, c) by { lemma_sort_dense(A0, *self, gp, gq, i, c); }
-            if rows_in_range(A0) { assert forall|k: int| 0 <= k < nn implies #[trigger] self.rowval@[k] < self.m by { assert(rv0[gp[k]] < A0.m); } }
-            if rows_in_range(*self) { assert forall|k: int| 0 <= k < nn implies #[trigger] A0.rowval@[k] < A0.m by { assert(self.rowval@[gq[k]] == rv0[gp[gq[k]]]); } }
+            if rows_in_range(A0) { assert forall|k: int| 0 <= k < nn implies #[trigger] self.rowval@[k] < self.m by { lemma_perm(gp, gq, nn, k); assert(rv0[gp[k]] < A0.m); } }
+            if rows_in_range(*self) { assert forall|k: int| 0 <= k < nn implies #[trigger] A0.rowval@[k] < A0.m by { lemma_perm(gp, gq, nn, k); assert(self.rowval@[gq[k]] == rv0[gp[gq[k]]]); } }
         }
 //@end
 
@@ -873,7 +882,7 @@ it2
         invariant
             it2.seq().len() == n, range_from(it2.seq(), 0),
             M.n == n, M.m == M0.m, M.colptr@.len() == n + 1, M.rowval@.len() == nn, M.nzval@.len() == nn, nn <= usize::MAX,
-            nn == I@.len(), rv0.len() == nn, nz0.len() == nn, cs == compose(J@, gp), hd == heads_cs(cs, rv0),
+            nn == I@.len(), nn == J@.len(), rv0.len() == nn, nz0.len() == nn, cs == compose(J@, gp), hd == heads_cs(cs, rv0),
             sorted_input(I@, J@, V@, gp, gq, rv0, nz0), cols_sorted(cs), forall|i: int| 0 <= i < cs.len() ==> #[trigger] cs[i] < n,
             readidx == cstart(cs, it2.index@ as int), writeidx == nheads(hd, readidx as int), writeidx <= readidx, readidx <= nn,
             forall|c: int| 0 <= c < it2.index@ ==> #[trigger] M.colptr@[c] == nheads(hd, cstart(cs, c + 1)) - nheads(hd, cstart(cs, c)),
@@ -905,7 +914,7 @@ it3
                 invariant
                     it3.seq().len() == nentries, range_from(it3.seq(), 0),
                     M.n == n, M.m == M0.m, M.colptr@.len() == n + 1, M.rowval@.len() == nn, M.nzval@.len() == nn, nn <= usize::MAX,
-                    nn == I@.len(), rv0.len() == nn, nz0.len() == nn, cs == compose(J@, gp), hd == heads_cs(cs, rv0),
+                    nn == I@.len(), nn == J@.len(), rv0.len() == nn, nz0.len() == nn, cs == compose(J@, gp), hd == heads_cs(cs, rv0),
                     sorted_input(I@, J@, V@, gp, gq, rv0, nz0), cols_sorted(cs), forall|i: int| 0 <= i < cs.len() ==> #[trigger] cs[i] < n,
                     0 <= gc < n, col == gc, s0 == cstart(cs, gc), s1 == cstart(cs, gc + 1), 0 <= s0 <= s1 <= nn, nentries == s1 - s0,
                     s0 < s1 ==> hd[s0],
